@@ -477,3 +477,40 @@ fn k14_subrule_apply_syll_mods_first() { subrule_apply_syll_mods_case(0) }
 #[kani::proof]
 #[kani::unwind(5)]
 fn k14_subrule_apply_syll_mods_second() { subrule_apply_syll_mods_case(1) }
+
+//% props=C05 tier=quick kind=P timeout=900 confirm_with=k4_match_supr_real pair=SubRule::match_supr_mod_seg clause="a suprasegmental modifier block matches iff its stress, length and tone parts all match (binary slots), for every run length and syllable state"
+#[kani::proof]
+#[kani::unwind(5)]
+#[kani::stub(crate::word::Word::seg_length_at, stub_seg_length_at)]
+fn k4_match_supr_mod_seg_modular() {
+    let n: usize = kani::any();
+    kani::assume(n >= 1);
+    unsafe { ANY_LEN = n; }
+    let s0 = any_stress();
+    let t0: u16 = kani::any();
+    let w = mk_word(vec![mk_syll(&[], s0, t0)]);
+    let sr = mk_subrule();
+    let mods = SupraSegs { stress: [any_binmod(), any_binmod()], length: [any_binmod(), any_binmod()], tone: kani::any() };
+    let r = sr.match_supr_mod_seg(&w, &mods, &SegPos::new(0, kani::any()));
+    let want = stress_ok(bin(mods.stress[0]), bin(mods.stress[1]), s0)
+        && len_ok(bin(mods.length[0]), bin(mods.length[1]), n)
+        && (match mods.tone { Some(t) => t == t0, None => true });
+    assert!(matches!(r, Ok(b) if b == want), "stress AND length AND tone");
+}
+
+//% props=C05 tier=quick kind=B bound="one syllable holding a run of 2 identical segments" timeout=900 pair=SubRule::match_supr_mod_seg,Word::seg_length_at clause="the same on a real word (run of 2), executing the real Word::seg_length_at"
+#[kani::proof]
+#[kani::unwind(5)]
+fn k4_match_supr_real() {
+    let a = any_wf_segment();
+    let s0 = any_stress();
+    let t0: u16 = kani::any();
+    let w = mk_word(vec![mk_syll(&[a, a], s0, t0)]);
+    let sr = mk_subrule();
+    let mods = SupraSegs { stress: [any_binmod(), any_binmod()], length: [any_binmod(), any_binmod()], tone: kani::any() };
+    let r = sr.match_supr_mod_seg(&w, &mods, &SegPos::new(0, 0));
+    let want = stress_ok(bin(mods.stress[0]), bin(mods.stress[1]), s0)
+        && len_ok(bin(mods.length[0]), bin(mods.length[1]), 2)
+        && (match mods.tone { Some(t) => t == t0, None => true });
+    assert!(matches!(r, Ok(b) if b == want), "stress AND length AND tone on a long segment");
+}
